@@ -120,7 +120,7 @@ func randBytes(r *rand.Rand, n int) []byte {
 var protoPool = []string{"h2", "http/1.1", "spdy/3", "x", "verif-proto-with-a-long-name", "acme-tls/1"}
 
 // wire signature schemes offered in external mode (RFC 8446 4.2.3 / RFC 5246 7.4.1.4.1 code points)
-var sigPool = []uint16{0x0804, 0x0805, 0x0806, 0x0401, 0x0501, 0x0601, 0x0403, 0x0503, 0x0603, 0x0807, 0x0201, 0x0203}
+var sigPool = []uint16{0x0804, 0x0805, 0x0806, 0x0401, 0x0501, 0x0601, 0x0403, 0x0503, 0x0603, 0x0807, 0x0201, 0x0203, 0x0809, 0x0808, 0x0301, 0x0402}
 
 func makeSpec(c cell, idx int, r *rand.Rand) spec {
 	s := spec{Cell: c, Index: idx, Mode: "default", ClientMax: c.Vers, LeafSet: "Server", Seed: r.Uint64() | 1}
@@ -201,9 +201,15 @@ func makeSpec(c cell, idx int, r *rand.Rand) spec {
 		switch s.SHRewrite {
 		case 23:
 		case 15:
-			s.SHRewData = []byte{1}
+			if p(30) {
+				s.SHRewData = []byte{1}
+			}
 		default:
-			s.SHRewData = randBytes(r, r.IntN(24))
+			// zcrypto's ServerHello parser rejects an unknown extension with a non-empty body, which ends the
+			// handshake at the ServerHello; most rewrites therefore use an empty body
+			if p(30) {
+				s.SHRewData = randBytes(r, 1+r.IntN(24))
+			}
 		}
 	}
 	if p(10) {
